@@ -105,3 +105,66 @@ func ShortDiff(a, b []byte) string {
 	}
 	return fmt.Sprintf("at byte %d: got ...%q want ...%q", n, a[lo:ha], b[lo:hb])
 }
+
+// SameUnordered reports whether two JSON texts denote the same value when the
+// order of object members is ignored (numbers by exact value, with the same
+// tolerance for spellings as TokensEqual).
+func SameUnordered(a, b []byte) bool {
+	var x, y interface{}
+	da := stdjson.NewDecoder(bytes.NewReader(a))
+	da.UseNumber()
+	db := stdjson.NewDecoder(bytes.NewReader(b))
+	db.UseNumber()
+	if da.Decode(&x) != nil || db.Decode(&y) != nil {
+		return false
+	}
+	ca, e1 := stdjson.Marshal(normUnordered(x))
+	cb, e2 := stdjson.Marshal(normUnordered(y))
+	return e1 == nil && e2 == nil && bytes.Equal(ca, cb)
+}
+
+func normUnordered(x interface{}) interface{} {
+	switch v := x.(type) {
+	case map[string]interface{}:
+		for k, e := range v {
+			v[k] = normUnordered(e)
+		}
+		return v
+	case []interface{}:
+		for i, e := range v {
+			v[i] = normUnordered(e)
+		}
+		return v
+	case stdjson.Number:
+		if r, ok := new(big.Rat).SetString(string(v)); ok {
+			sign := ""
+			if string(v)[0] == '-' && r.Sign() == 0 {
+				sign = "-"
+			}
+			return "N:" + sign + r.String()
+		}
+		return "N:" + string(v)
+	case string:
+		if r, ok := new(big.Rat).SetString(v); ok && stdjson.Valid([]byte(v)) {
+			return "S:" + r.String()
+		}
+		return "s:" + v
+	}
+	return x
+}
+
+// SortMembers re-renders a JSON text with the members of every object sorted by
+// key (numbers keep their spelling); ok is false when the text is not one JSON value.
+func SortMembers(a []byte) (out []byte, ok bool) {
+	var x interface{}
+	d := stdjson.NewDecoder(bytes.NewReader(a))
+	d.UseNumber()
+	if d.Decode(&x) != nil {
+		return nil, false
+	}
+	if _, err := d.Token(); err != io.EOF {
+		return nil, false
+	}
+	out, err := stdjson.Marshal(x)
+	return out, err == nil
+}
